@@ -1,10 +1,160 @@
-//! builds suites (stub)
-pub fn build_case(_f: &[&str]) -> String {
-    "UNIMPLEMENTED".to_string()
+//! BUILD / LIT / SYM suites: the bytecode builder, the literal parsers and `symbol_value` of the real code.
+//!
+//!   SYM   \t id \t <escaped name>                       -> decimal u64 of `symbol_value(name)`
+//!   LIT   \t id \t kind \t <escaped literal text>        -> `ok <value>` | `err`
+//!            kind = number | charlist | bytelist | symbol; runs `data.parse_add_*` exactly as build.rs calls it
+//!            (symbol: `parse_add_symbol(&text[1..])`) on both stores; `simple=<..> basic=<..>` if they differ
+//!   BUILD \t id \t store \t n_pre \t TypeName,<escaped text> ...
+//!            -> `parseerr` | `err` | `ok entry=<jump index> I=[<instr>;..] J=[<n>;..] M=[<n or ->;..]`
+//!            the complete instruction vector / jump table of the object after `n_pre` builds of the prelude
+//!            `5 + 5` followed by the build of the given token list; M = the metadata vectors of all these
+//!            builds concatenated.
+use crate::esc::unescape;
+use crate::store::{BasicStore, SimpleStore, Store};
+use crate::values::render;
+use garnish_lang_compiler::build::build;
+use garnish_lang_compiler::lex::{LexerToken, TokenType};
+use garnish_lang_compiler::parse::parse;
+use garnish_lang_simple_data::symbol_value;
+use garnish_lang_traits::Instruction;
+
+/// every variant of TokenType (same list as parses.rs, which keeps the exhaustiveness check)
+const ALL_TOKEN_TYPES: &[TokenType] = &[
+    TokenType::Unknown, TokenType::UnitLiteral, TokenType::PlusSign, TokenType::Subtraction, TokenType::Division,
+    TokenType::MultiplicationSign, TokenType::ExponentialSign, TokenType::IntegerDivision, TokenType::Remainder,
+    TokenType::AbsoluteValue, TokenType::Opposite, TokenType::BitwiseNot, TokenType::BitwiseAnd, TokenType::BitwiseOr,
+    TokenType::BitwiseXor, TokenType::BitwiseLeftShift, TokenType::BitwiseRightShift, TokenType::And, TokenType::Or,
+    TokenType::Xor, TokenType::Not, TokenType::Tis, TokenType::StartExpression, TokenType::EndExpression,
+    TokenType::StartGroup, TokenType::EndGroup, TokenType::StartSideEffect, TokenType::EndSideEffect, TokenType::Value,
+    TokenType::Comma, TokenType::Symbol, TokenType::Number, TokenType::Identifier, TokenType::CharList,
+    TokenType::ByteList, TokenType::Whitespace, TokenType::Subexpression, TokenType::ExpressionTerminator,
+    TokenType::ExpressionSeparator, TokenType::Annotation, TokenType::LineAnnotation, TokenType::JumpIfFalse,
+    TokenType::JumpIfTrue, TokenType::ElseJump, TokenType::TypeOf, TokenType::Apply, TokenType::ApplyTo,
+    TokenType::PartialApply, TokenType::Reapply, TokenType::EmptyApply, TokenType::TypeCast, TokenType::TypeEqual,
+    TokenType::Equality, TokenType::Inequality, TokenType::LessThan, TokenType::LessThanOrEqual, TokenType::GreaterThan,
+    TokenType::GreaterThanOrEqual, TokenType::Period, TokenType::LeftInternal, TokenType::RightInternal,
+    TokenType::LengthInternal, TokenType::Pair, TokenType::Concatenation, TokenType::Range,
+    TokenType::StartExclusiveRange, TokenType::EndExclusiveRange, TokenType::ExclusiveRange, TokenType::False,
+    TokenType::True, TokenType::PrefixIdentifier, TokenType::SuffixIdentifier, TokenType::InfixIdentifier,
+];
+
+fn tokens_of_fields(fields: &[&str]) -> Option<Vec<LexerToken>> {
+    let mut tokens = Vec::with_capacity(fields.len());
+    for field in fields {
+        let i = field.find(',')?;
+        let (name, text) = (&field[..i], &field[i + 1..]);
+        let tt = ALL_TOKEN_TYPES.iter().copied().find(|t| format!("{:?}", t) == name)?;
+        tokens.push(LexerToken::new(unescape(text), tt, 0, 0));
+    }
+    Some(tokens)
 }
-pub fn lit_case(_f: &[&str]) -> String {
-    "UNIMPLEMENTED".to_string()
+
+pub fn sym_case(f: &[&str]) -> String {
+    let name = unescape(f.get(2).copied().unwrap_or(""));
+    format!("{}", symbol_value(&name))
 }
-pub fn sym_case(_f: &[&str]) -> String {
-    "UNIMPLEMENTED".to_string()
+
+fn lit_on<D: Store>(kind: &str, text: &str) -> String {
+    let mut d = D::create(None);
+    let r = match kind {
+        "number" => d.parse_add_number(text),
+        "charlist" => d.parse_add_char_list(text),
+        "bytelist" => d.parse_add_byte_list(text),
+        "symbol" => d.parse_add_symbol(&text[1..]),
+        _ => return "BAD-CASE".to_string(),
+    };
+    match r {
+        Ok(addr) => format!("ok {}", render(&d, addr, 0)),
+        Err(_) => "err".to_string(),
+    }
+}
+
+pub fn lit_case(f: &[&str]) -> String {
+    if f.len() < 3 {
+        return "BAD-CASE".to_string();
+    }
+    let kind = f[2];
+    let text = unescape(f.get(3).copied().unwrap_or(""));
+    let s = lit_on::<SimpleStore>(kind, &text);
+    let b = lit_on::<BasicStore>(kind, &text);
+    if s == b { s } else { format!("simple={} basic={}", s, b) }
+}
+
+fn show_instr<D: Store>(d: &D, i: usize) -> String {
+    match d.get_instruction(i) {
+        None => "<none>".to_string(),
+        Some((ins, None)) => format!("{:?}", ins),
+        Some((ins, Some(k))) => match ins {
+            Instruction::Put | Instruction::Resolve => format!("{:?}:{}", ins, render(d, k, 0)),
+            _ => format!("{:?}:{}", ins, k),
+        },
+    }
+}
+
+fn prelude_tokens() -> Vec<LexerToken> {
+    vec![
+        LexerToken::new("5".to_string(), TokenType::Number, 0, 0),
+        LexerToken::new(" ".to_string(), TokenType::Whitespace, 0, 0),
+        LexerToken::new("+".to_string(), TokenType::PlusSign, 0, 0),
+        LexerToken::new(" ".to_string(), TokenType::Whitespace, 0, 0),
+        LexerToken::new("5".to_string(), TokenType::Number, 0, 0),
+    ]
+}
+
+fn build_on<D: Store>(n_pre: usize, tokens: &Vec<LexerToken>) -> String {
+    let mut d = D::create(None);
+    let mut meta: Vec<Option<usize>> = vec![];
+    for _ in 0..n_pre {
+        let p = match parse(&prelude_tokens()) {
+            Ok(p) => p,
+            Err(_) => return "PRELUDE-FAILED".to_string(),
+        };
+        match build(p.get_root(), p.get_nodes_owned(), &mut d) {
+            Ok(b) => meta.extend(b.instruction_metadata().iter().map(|m| m.get_parse_node_index())),
+            Err(_) => return "PRELUDE-FAILED".to_string(),
+        }
+    }
+    let p = match parse(tokens) {
+        Ok(p) => p,
+        Err(_) => return "parseerr".to_string(),
+    };
+    let b = match build(p.get_root(), p.get_nodes_owned(), &mut d) {
+        Ok(b) => b,
+        Err(_) => return "err".to_string(),
+    };
+    meta.extend(b.instruction_metadata().iter().map(|m| m.get_parse_node_index()));
+    let instrs: Vec<String> = d.get_instruction_iter().map(|i| show_instr(&d, i)).collect();
+    let jumps: Vec<String> = (0..d.get_jump_table_len())
+        .map(|i| match d.get_from_jump_table(i) {
+            Some(v) => v.to_string(),
+            None => "<none>".to_string(),
+        })
+        .collect();
+    let metas: Vec<String> = meta
+        .iter()
+        .map(|m| match m {
+            Some(i) => i.to_string(),
+            None => "-".to_string(),
+        })
+        .collect();
+    format!("ok entry={} I=[{}] J=[{}] M=[{}]", b.jump_index(), instrs.join(";"), jumps.join(";"), metas.join(";"))
+}
+
+pub fn build_case(f: &[&str]) -> String {
+    if f.len() < 4 {
+        return "BAD-CASE".to_string();
+    }
+    let n_pre: usize = match f[3].parse() {
+        Ok(n) => n,
+        Err(_) => return "BAD-CASE".to_string(),
+    };
+    let tokens = match tokens_of_fields(&f[4..]) {
+        Some(t) => t,
+        None => return "BAD-CASE".to_string(),
+    };
+    match f[2] {
+        "simple" => build_on::<SimpleStore>(n_pre, &tokens),
+        "basic" => build_on::<BasicStore>(n_pre, &tokens),
+        _ => "BAD-CASE".to_string(),
+    }
 }
